@@ -119,6 +119,12 @@ def diag(v, k=0):
         if v.ndim != 2:
             raise ValueError("Array must be 1d or 2d only")
         # 2D case: extract diagonal
+        if any(np.isnan(c) for dim in v.chunks for c in dim):
+            # unknown (nan) sizes compare equal as tuple members (identity)
+            # but say nothing about which blocks the diagonal crosses
+            from dask_array._core_utils import unknown_chunk_message
+
+            raise ValueError(f"Array chunk sizes are unknown. shape: {v.shape}, chunks: {v.chunks}{unknown_chunk_message}")
         if k == 0 and v.chunks[0] == v.chunks[1]:
             return new_collection(Diag2DSimple(v.expr))
         else:
